@@ -341,7 +341,24 @@ def drive(scenarios, wd, tag="conc"):
             if sch and (sch[-1].get("deadlock") or sch[-1].get("goroutines_in_mutex_lock", 0) >= 2):
                 deadlocks.append((last, evs))
             else:
-                stuck.append(last)
+                # the watchdog fired without evidence of requests blocked on each other: on a loaded machine a schedule step can
+                # simply be late.  The scenario is run again on its own before anything is concluded from it.
+                sc_ = [s for s in todo if s["id"] == last][0]
+                settled = False
+                for again in range(2):
+                    ev2, rc2, err2 = run_driver([sc_], wd, tag="%s_retry%d_%d" % (tag, rounds, again), timeout=600)
+                    by2 = split_scenarios(ev2)
+                    if rc2 == 0 and last in by2:
+                        all_events[last] = by2[last]
+                        settled = True
+                        break
+                    sch2 = [e for e in by2.get(last, []) if e["ev"] in ("Sched", "Watchdog")]
+                    if rc2 == 3 and sch2 and (sch2[-1].get("deadlock") or sch2[-1].get("goroutines_in_mutex_lock", 0) >= 2):
+                        deadlocks.append((last, by2[last]))
+                        settled = True
+                        break
+                if not settled:
+                    stuck.append(last)
             idx = [s["id"] for s in todo].index(last)
             todo = todo[idx + 1:]
             if len(deadlocks) >= 3:
